@@ -190,7 +190,7 @@ func checkModelEquality(prop string, p *PipePlan, obs *PipeObs, out *RunOut, pro
 		if d.wantPub == 1 && len(pubs) == 0 {
 			// missing message: accounting concern (C13) unless the model expected records
 			out.Violations = append(out.Violations, Violation{Prop: prop, Class: "missing-message", Key: d.Proto + " " + d.class,
-				Msg: fmt.Sprintf("delivery %d (%s seq %d, %d records expected) produced no published message; log tail: %s", d.ID, d.Proto, seqOfDelivery(d), expRecords(d), tail(obs.Log, 300))})
+				Msg: fmt.Sprintf("delivery %d (%s seq %d, %d records expected) produced no published message; log tail: %s\ndatagram: %x", d.ID, d.Proto, seqOfDelivery(d), expRecords(d), tail(obs.Log, 300), trunc(d.payload, 600))})
 			continue
 		}
 		if d.wantPub == 0 && len(pubs) > 0 && d.class == "bad-header" {
